@@ -517,6 +517,67 @@ def attr_writer(ctx: Ctx):
             ctx.disagree(case, "node attributes after write_attributes", model=out, impl=exp)
 
 
+def aux_assignments(ctx: Ctx):
+    """Assignments the API offers on the parts of an entity that are not entities themselves: an entry of a value map, the name
+    of a colour map, the name of a property group.  Made alone in a later session; a fresh reader must see them."""
+    from geoh5py.data.color_map import ColorMap
+    from geoh5py.objects import Points
+    from geoh5py.workspace import Workspace
+    path = ctx.scratch / "c03_aux.geoh5"
+
+    def build(ws):
+        pts = Points.create(ws, vertices=np.zeros((3, 3)), name="pts")
+        ref = pts.add_data({"r": {"values": np.array([1, 2, 1], dtype="int32"), "type": "referenced", "value_map": {1: "A", 2: "B"}}})
+        flt = pts.add_data({"f": {"values": np.arange(3.0)}})
+        flt.entity_type.color_map = ColorMap(values=np.c_[np.arange(3.0), [0, 10, 20], [0, 10, 20], [0, 10, 20], [255, 255, 255]],
+                                             name="cm0.TBL")
+        pts.add_data_to_group(flt, "grp")
+
+    def value_map_item(pts):
+        vm = pts.get_data("r")[0].entity_type.value_map
+        vm[1] = "Z"
+        return dict(vm.map)
+
+    def color_map_name(pts):
+        cm = pts.get_data("f")[0].entity_type.color_map
+        cm.name = "cm1.TBL"
+        return cm.name
+
+    def group_name(pts):
+        pg = pts.property_groups[0]
+        pg.name = "renamed"
+        return sorted(g.name for g in pts.property_groups)
+
+    readers = {
+        "value_map-item": lambda pts: dict(pts.get_data("r")[0].entity_type.value_map.map),
+        "color_map-name": lambda pts: pts.get_data("f")[0].entity_type.color_map.name,
+        "property_group-name": lambda pts: sorted(g.name for g in pts.property_groups),
+    }
+    for label, edit in (("value_map-item", value_map_item), ("color_map-name", color_map_name), ("property_group-name", group_name)):
+        case = {"cls": "aux", "attr": label, "session": "later"}
+        if path.exists():
+            os.remove(path)
+        try:
+            with Workspace.create(path) as ws:
+                build(ws)
+            with Workspace(str(path), mode="r+") as ws:
+                try:
+                    live = edit(ws.get_entity("pts")[0])
+                except Exception:  # noqa: BLE001   not accepted: nothing to check
+                    ctx.count("assignment_rejected")
+                    continue
+            with Workspace(str(path), mode="r") as ws:
+                back = readers[label](ws.get_entity("pts")[0])
+            ctx.case(case, nontrivial=True, sample_cap=3)
+            ctx.count("pairs_checked")
+            if back != live:
+                ctx.fail(case, f"{label}: accepted (live value {live}) but a fresh reader sees {back}", f"C03:lost:{label}")
+        except Exception as e:  # noqa: BLE001
+            ctx.fail(case, f"{label}: assign/close/re-read raised {type(e).__name__}: {str(e)[:100]}", f"C03:raises:{label}:{type(e).__name__}")
+    if path.exists():
+        os.remove(path)
+
+
 def run(ctx: Ctx):
     import warnings
     warnings.filterwarnings("ignore")
@@ -525,6 +586,7 @@ def run(ctx: Ctx):
     orders(ctx)
     ctx.traces = ctx.hist.get("pairs_checked", 0) + ctx.hist.get("orders_checked", 0)
     attr_writer(ctx)
+    aux_assignments(ctx)
 
 
 def replay(ctx: Ctx, payload):
